@@ -3,8 +3,10 @@
     the answer the real implementation gave.  For every query the verdict says
       bit 1 — the model's answer differs from the implementation's  (correspondence)
       bit 2 — the SPEC rejects the implementation's answer           (property)
-      bit 4 — the query lies in a known-finding class
+      bit 4 — a hypothesis of the property's theorem is not met by this state (validation
+              of the hypotheses on generated cases; never expected)
       bit 8 — the spec rejects the MODEL's answer (must coincide with a _refuted class)
+      bits 16, 32, ... — the query lies in a known-finding class (one bit per class)
     Definitions only. *)
 From PLS Require Export Spec.Pytest.
 
